@@ -428,7 +428,20 @@ func (in *Interp) RunPath(entry *ssa.Function, item WorkItem, e *Explorer) (res 
 			}
 		}()
 		in.initAll()
-		in.callFunction(nil, entry, nil, nil)
+		func() {
+			defer func() {
+				if r := recover(); r != nil {
+					if tp, ok := r.(*targetPanic); ok && tp.kind == "test-goexit" {
+						return // t.Fatal / t.Skip at the top level of a test function
+					}
+					panic(r)
+				}
+			}()
+			in.callFunction(nil, entry, in.entryArgs(entry), nil)
+		}()
+		if in.testFailed {
+			panic(&pathAbort{kind: "violation", msg: "test-failed: " + in.testMsg})
+		}
 		res.Outcome = "ok"
 	}()
 	if err != nil {
